@@ -54,7 +54,7 @@ import strax.context as sctx  # noqa: E402
 from lib import sched as S  # noqa: E402
 
 ID = "C06"
-LEAN_MODULES = ["StraxModel.Props.C06"]
+LEAN_MODULES = ["StraxModel.Props.C06", "StraxModel.Props.C06Kill"]
 TRUSTED = [
     "cooperative scheduler checks/lib/sched.py substituted for `threading` in strax.mailbox, for the thread pools in "
     "strax.processors.threaded_mailbox and for concurrent.futures.wait in strax.storage.common (one thread runs at a time; "
@@ -1418,6 +1418,346 @@ RULE_PIPE = ("one real Context.get_iter run under the cooperative scheduler per 
              "decisions (threaded) or a fault that fired; distinct = distinct (graph, configuration, fault position, schedule seed)")
 
 
+# ============================================================================================ translator (round 5)
+# Mailbox.kill / Mailbox.kill_from_exception  →  lean/StraxModel/Generated/MailboxKill.lean
+
+class Untranslatable(Exception):
+    pass
+
+
+_KILL_ATTRS = {"force_killed": "forceKilled", "killed": "killed", "killed_because": "killedBecause"}
+_KILL_CONDS = {"_read_condition": "read", "_write_condition": "write", "_fetch_new_condition": "fetchNew"}
+_GEN_HEADER = """-- GENERATED by checks/props/c06.py:regen from /repo/strax/mailbox.py (Mailbox.kill, Mailbox.kill_from_exception). Do not edit.
+namespace Strax.Generated.MailboxKill
+
+/-- the three condition variables of a mailbox -/
+inductive Cond where
+  | read
+  | write
+  | fetchNew
+deriving Repr, DecidableEq
+
+/-- the attributes `kill` touches, and the `notify_all()` calls it made (in order) -/
+structure St (R : Type) where
+  forceKilled : Bool
+  killed : Bool
+  killedBecause : Option R
+  notified : List Cond := []
+deriving Repr, DecidableEq
+
+/-- a caught exception: `MailboxKilled(arg0)`, or any other one (`triple` = `(e.__class__, e, traceback)`) -/
+inductive Caught (R : Type) where
+  | mailboxKilled (arg0 : R)
+  | other (triple : R)
+deriving Repr, DecidableEq
+
+"""
+
+
+def _is_self_attr(node, name=None):
+    import ast
+    return (isinstance(node, ast.Attribute) and isinstance(node.value, ast.Name) and node.value.id == "self"
+            and (name is None or node.attr == name))
+
+
+def _is_log_call(st):
+    import ast
+    return (isinstance(st, ast.Expr) and isinstance(st.value, ast.Call) and isinstance(st.value.func, ast.Attribute)
+            and _is_self_attr(st.value.func.value, "log"))
+
+
+def _is_docstring(st):
+    import ast
+    return isinstance(st, ast.Expr) and isinstance(st.value, ast.Constant) and isinstance(st.value.value, str)
+
+
+def _tr_kill_test(t, params):
+    import ast
+    if isinstance(t, ast.UnaryOp) and isinstance(t.op, ast.Not):
+        return f"(!{_tr_kill_test(t.operand, params)})"
+    if isinstance(t, ast.Name) and t.id in params:
+        return t.id
+    if _is_self_attr(t) and t.attr in ("force_killed", "killed"):
+        return f"self.{_KILL_ATTRS[t.attr]}"
+    if isinstance(t, ast.BoolOp):
+        op = " && " if isinstance(t.op, ast.And) else " || "
+        return "(" + op.join(_tr_kill_test(v, params) for v in t.values) + ")"
+    raise Untranslatable(f"kill: test {ast.dump(t)[:80]}")
+
+
+def _tr_kill_value(attr, v, params):
+    import ast
+    if attr in ("force_killed", "killed"):
+        if isinstance(v, ast.Constant) and isinstance(v.value, bool):
+            return "true" if v.value else "false"
+        return _tr_kill_test(v, params)
+    if isinstance(v, ast.Name) and v.id == "reason":
+        return "reason"
+    if isinstance(v, ast.Constant) and v.value is None:
+        return "none"
+    raise Untranslatable(f"kill: value of {attr}: {ast.dump(v)[:80]}")
+
+
+def _tr_kill_block(stmts, params):
+    """statements of `kill` → a Lean expression of type `St R` over the variable `self`; returns (expr, returns?)"""
+    import ast
+    stmts = [s for s in stmts if not _is_log_call(s) and not _is_docstring(s) and not isinstance(s, ast.Pass)]
+    if not stmts:
+        return "self", False
+    st, rest = stmts[0], stmts[1:]
+    if isinstance(st, ast.Return):
+        if st.value is not None and not (isinstance(st.value, ast.Constant) and st.value.value is None):
+            raise Untranslatable("kill: returns a value")
+        return "self", True
+    if isinstance(st, ast.Assign) and len(st.targets) == 1 and _is_self_attr(st.targets[0]) and st.targets[0].attr in _KILL_ATTRS:
+        a = st.targets[0].attr
+        k, r = _tr_kill_block(rest, params)
+        return f"(let self : St R := {{ self with {_KILL_ATTRS[a]} := {_tr_kill_value(a, st.value, params)} }}; {k})", r
+    if (isinstance(st, ast.Expr) and isinstance(st.value, ast.Call) and isinstance(st.value.func, ast.Attribute)
+            and st.value.func.attr == "notify_all" and not st.value.args and not st.value.keywords
+            and _is_self_attr(st.value.func.value) and st.value.func.value.attr in _KILL_CONDS):
+        k, r = _tr_kill_block(rest, params)
+        return (f"(let self : St R := {{ self with notified := self.notified ++ [Cond.{_KILL_CONDS[st.value.func.value.attr]}] }}; {k})", r)
+    if isinstance(st, ast.If):
+        test = _tr_kill_test(st.test, params)
+        b, br = _tr_kill_block(st.body, params)
+        e, er = _tr_kill_block(st.orelse, params)
+        if br and er:
+            return f"(if {test} then {b} else {e})", True
+        k, r = _tr_kill_block(rest, params)
+        if br:      # the `then` branch returns: the rest continues the `else` branch
+            cont = k if e == "self" else f"(let self : St R := {e}; {k})"
+            return f"(if {test} then {b} else {cont})", r
+        if er:
+            cont = k if b == "self" else f"(let self : St R := {b}; {k})"
+            return f"(if {test} then {cont} else {e})", r
+        return f"(let self : St R := (if {test} then {b} else {e}); {k})", r
+    raise Untranslatable(f"kill: statement {ast.dump(st)[:80]}")
+
+
+def _kill_defaults(fn):
+    import ast
+    args = [a.arg for a in fn.args.args]
+    if args != ["self", "upstream", "reason"] or fn.args.vararg or fn.args.kwarg or fn.args.kwonlyargs or len(fn.args.defaults) != 2:
+        raise Untranslatable("kill: signature")
+    up, rs = fn.args.defaults
+    if not (isinstance(up, ast.Constant) and isinstance(up.value, bool)) or not (isinstance(rs, ast.Constant) and rs.value is None):
+        raise Untranslatable("kill: defaults")
+    return "true" if up.value else "false"
+
+
+def _tr_kfe_reason(v, branch):
+    """the `reason=` argument inside kill_from_exception: `e.args[0]` under isinstance(e, MailboxKilled), else the triple"""
+    import ast
+    if (branch == "mk" and isinstance(v, ast.Subscript) and isinstance(v.value, ast.Attribute) and v.value.attr == "args"
+            and isinstance(v.value.value, ast.Name) and v.value.value.id == "e"
+            and isinstance(v.slice, ast.Constant) and v.slice.value == 0):
+        return "(some arg0)"
+    if (branch == "other" and isinstance(v, ast.Tuple) and len(v.elts) == 3
+            and isinstance(v.elts[0], ast.Attribute) and v.elts[0].attr == "__class__"
+            and isinstance(v.elts[0].value, ast.Name) and v.elts[0].value.id == "e"
+            and isinstance(v.elts[1], ast.Name) and v.elts[1].id == "e"):
+        return "(some triple)"
+    if isinstance(v, ast.Constant) and v.value is None:
+        return "none"
+    raise Untranslatable(f"kill_from_exception: reason {ast.dump(v)[:80]} in branch {branch}")
+
+
+def _tr_kfe_block(stmts, branch, up_default):
+    """statements of `kill_from_exception` → Lean expression of type `St R × Bool` (state, re-raised?)"""
+    import ast
+    stmts = [s for s in stmts if not _is_log_call(s) and not _is_docstring(s) and not isinstance(s, ast.Pass)]
+    if not stmts:
+        return "(self, false)"
+    st, rest = stmts[0], stmts[1:]
+    if isinstance(st, ast.Raise):
+        if not (isinstance(st.exc, ast.Name) and st.exc.id == "e") or st.cause is not None:
+            raise Untranslatable("kill_from_exception: raises something else than e")
+        return "(self, true)"
+    if isinstance(st, ast.Return) and (st.value is None or (isinstance(st.value, ast.Constant) and st.value.value is None)):
+        return "(self, false)"
+    if isinstance(st, ast.Expr) and isinstance(st.value, ast.Call) and _is_self_attr(st.value.func, "kill") and not st.value.args:
+        kw = {k.arg: k.value for k in st.value.keywords}
+        if set(kw) - {"upstream", "reason"}:
+            raise Untranslatable("kill_from_exception: kill keywords")
+        up = up_default
+        if "upstream" in kw:
+            if not (isinstance(kw["upstream"], ast.Constant) and isinstance(kw["upstream"].value, bool)):
+                raise Untranslatable("kill_from_exception: upstream argument")
+            up = "true" if kw["upstream"].value else "false"
+        rs = _tr_kfe_reason(kw["reason"], branch) if "reason" in kw else "none"
+        return f"(let self : St R := kill self {up} {rs}; {_tr_kfe_block(rest, branch, up_default)})"
+    if isinstance(st, ast.If):
+        t = st.test
+        if (branch is None and isinstance(t, ast.Call) and isinstance(t.func, ast.Name) and t.func.id == "isinstance"
+                and len(t.args) == 2 and isinstance(t.args[0], ast.Name) and t.args[0].id == "e"
+                and isinstance(t.args[1], ast.Name) and t.args[1].id == "MailboxKilled"):
+            if rest:
+                raise Untranslatable("kill_from_exception: statements after the isinstance split")
+            return (f"(match e with | Caught.mailboxKilled arg0 => {_tr_kfe_block(st.body, 'mk', up_default)} "
+                    f"| Caught.other triple => {_tr_kfe_block(st.orelse, 'other', up_default)})")
+        if isinstance(t, ast.Name) and t.id == "reraise" and not rest:
+            return f"(if reraise then {_tr_kfe_block(st.body, branch, up_default)} else {_tr_kfe_block(st.orelse, branch, up_default)})"
+        if (isinstance(t, ast.UnaryOp) and isinstance(t.op, ast.Not) and isinstance(t.operand, ast.Name)
+                and t.operand.id == "reraise" and not rest):
+            return f"(if reraise then {_tr_kfe_block(st.orelse, branch, up_default)} else {_tr_kfe_block(st.body, branch, up_default)})"
+    raise Untranslatable(f"kill_from_exception: statement {ast.dump(st)[:80]}")
+
+
+def translate_mailbox_kill(source):
+    import ast
+    tree = ast.parse(source)
+    cls = next(n for n in tree.body if isinstance(n, ast.ClassDef) and n.name == "Mailbox")
+    fns = {n.name: n for n in cls.body if isinstance(n, ast.FunctionDef)}
+    kill, kfe = fns["kill"], fns["kill_from_exception"]
+    up_default = _kill_defaults(kill)
+    body = [s for s in kill.body if not _is_docstring(s) and not _is_log_call(s)]
+    if (len(body) != 1 or not isinstance(body[0], ast.With) or len(body[0].items) != 1
+            or not _is_self_attr(body[0].items[0].context_expr, "_lock")):
+        raise Untranslatable("kill: body is not one `with self._lock:` block")
+    kill_expr, _ = _tr_kill_block(body[0].body, {"upstream"})
+    a = [x.arg for x in kfe.args.args]
+    if a != ["self", "e", "reraise"] or len(kfe.args.defaults) != 1 or not (
+            isinstance(kfe.args.defaults[0], ast.Constant) and isinstance(kfe.args.defaults[0].value, bool)):
+        raise Untranslatable("kill_from_exception: signature")
+    rr_default = "true" if kfe.args.defaults[0].value else "false"
+    kfe_expr = _tr_kfe_block(kfe.body, None, up_default)
+    return (_GEN_HEADER
+            + "/-- `Mailbox.kill(upstream, reason)` -/\n"
+            + f"def kill {{R : Type}} (self : St R) (upstream : Bool) (reason : Option R) : St R :=\n  {kill_expr}\n\n"
+            + "/-- default values of the keyword arguments `upstream` (kill) and `reraise` (kill_from_exception) -/\n"
+            + f"def upstreamDefault : Bool := {up_default}\n"
+            + f"def reraiseDefault : Bool := {rr_default}\n\n"
+            + "/-- `Mailbox.kill_from_exception(e, reraise)`: the state afterwards and whether `e` is re-raised -/\n"
+            + f"def killFromException {{R : Type}} (self : St R) (e : Caught R) (reraise : Bool) : St R × Bool :=\n  {kfe_expr}\n\n"
+            + "end Strax.Generated.MailboxKill\n")
+
+
+def regen(ctx):
+    """Regenerate Generated/MailboxKill.lean from the current source of strax.mailbox.Mailbox.kill / kill_from_exception."""
+    from lib.engine import LEAN, REPO
+    out = LEAN / "StraxModel" / "Generated" / "MailboxKill.lean"
+    try:
+        text = translate_mailbox_kill((REPO / "strax" / "mailbox.py").read_text())
+    except (Untranslatable, StopIteration, SyntaxError, KeyError) as e:
+        ctx.translator["Mailbox.kill"] = f"untranslatable: {e}"
+        ctx.violation("translator:Mailbox.kill", "translator", None, {"reason": str(e)},
+                      "translator regenerates Generated.MailboxKill from the source of Mailbox.kill / kill_from_exception", False)
+        return
+    ctx.translator["Mailbox.kill"] = "translated"
+    if not out.exists() or out.read_text() != text:
+        out.write_text(text)
+
+
+# ---------------------------------------------------------------------------------- kill bookkeeping on the real Mailbox
+
+class _Rec:
+    """stands in for a threading.Condition of a Mailbox that is never started: records notify_all()"""
+
+    def __init__(self, name, log):
+        self.name, self.log = name, log
+
+    def notify_all(self):
+        self.log.append(self.name)
+
+    notify = notify_all
+
+
+def killbk_cases():
+    cases = []
+    for killed, force, has in itertools.product([0, 1], repeat=3):
+        if force and not killed:
+            continue           # force_killed without killed is not a reachable mailbox state
+        for up, rs in itertools.product([0, 1, None], [0, 1]):
+            cases.append({"killed": killed, "force": force, "has": has, "call": "kill", "up": up, "reason": rs})
+        for kind, rr in itertools.product(["m", "o"], [0, 1, None]):
+            cases.append({"killed": killed, "force": force, "has": has, "call": "kfe", "exc": kind, "reraise": rr})
+    return cases
+
+
+def killbk_impl(c):
+    mb = mbm.Mailbox(name="kb")
+    mb.log.setLevel(logging.CRITICAL)
+    log = []
+    mb._read_condition, mb._write_condition, mb._fetch_new_condition = _Rec("r", log), _Rec("w", log), _Rec("f", log)
+    mb.killed, mb.force_killed = bool(c["killed"]), bool(c["force"])
+    old = ("old",)
+    mb.killed_because = old if c["has"] else None
+    raised = "-"
+    if c["call"] == "kill":
+        kw = {}
+        if c["up"] is not None:
+            kw["upstream"] = bool(c["up"])
+        new = ("new",)
+        if c["reason"]:
+            kw["reason"] = new
+        mb.kill(**kw)
+        names = {id(new): "new"}
+    else:
+        arg0 = ("arg0",)
+        e = mbm.MailboxKilled(arg0) if c["exc"] == "m" else Injected("kb")
+        kw = {} if c["reraise"] is None else {"reraise": bool(c["reraise"])}
+        try:
+            try:
+                raise e
+            except Exception as caught:  # noqa: BLE001   (kill_from_exception reads sys.exc_info())
+                mb.kill_from_exception(caught, **kw)
+        except BaseException as x:  # noqa: BLE001
+            raised = "e" if x is e else type(x).__name__
+        names = {id(arg0): "arg0"}
+    kb = mb.killed_because
+    if kb is None:
+        rs = "none"
+    elif kb is old:
+        rs = "old"
+    elif id(kb) in names:
+        rs = names[id(kb)]
+    elif c["call"] == "kfe" and isinstance(kb, tuple) and len(kb) == 3 and kb[1] is e and kb[0] is type(e):
+        rs = "triple"
+    else:
+        rs = "other"
+    return f"ok killed={int(mb.killed)} force={int(mb.force_killed)} reason={rs} notified={'.'.join(log) or '-'} raised={raised}"
+
+
+def killbk_op(c):
+    def b(x):
+        return "-" if x is None else str(int(x))
+    if c["call"] == "kill":
+        call = f"k:{b(c['up'])}:{c['reason']}"
+    else:
+        call = f"x:{c['exc']}:{b(c['reraise'])}"
+    return f"c06.kill {c['killed']} {c['force']} {c['has']} {call}"
+
+
+def killbk_oracle(c, out):
+    """the kill protocol in the property's words: killed afterwards; an upstream kill (every kill_from_exception is one) force-kills;
+    the FIRST kill wakes the waiters of all three conditions and records its reason, a later one changes neither; only a foreign
+    exception is re-raised (MailboxKilled is not: one traceback), and it is `e` itself"""
+    if not out.startswith("ok "):
+        return f"kill bookkeeping crashed: {out}"
+    f = dict(x.split("=") for x in out[3:].split(" "))
+    up = True if c["call"] == "kfe" else (True if c["up"] is None else bool(c["up"]))
+    if f["killed"] != "1":
+        return "the mailbox is not killed after kill()"
+    if up and f["force"] != "1":
+        return "an upstream kill did not force-kill the mailbox"
+    if not c["killed"]:
+        if sorted(f["notified"].split(".")) != ["f", "r", "w"]:
+            return f"first kill notified only {f['notified']}: a waiter of another condition sleeps until its timeout"
+        want = ("new" if c["reason"] else "none") if c["call"] == "kill" else ("arg0" if c["exc"] == "m" else "triple")
+        if f["reason"] != want:
+            return f"first kill recorded reason {f['reason']}, expected {want}: the caller would not get the original exception"
+    else:
+        if f["reason"] != ("old" if c["has"] else "none"):
+            return f"a second kill replaced the reason of the first ({f['reason']})"
+    if c["call"] == "kfe":
+        rr = True if c["reraise"] is None else bool(c["reraise"])
+        want = "e" if (c["exc"] == "o" and rr) else "-"
+        if f["raised"] != want:
+            return f"kill_from_exception raised {f['raised']}, expected {want}"
+    return None
+
+
 def run(ctx):
     rng = ctx.rng
     t0 = time.time()
@@ -1449,6 +1789,12 @@ def run(ctx):
     ctx.check_oracle("divider/corpus", divider_cases(), divider_probe, divider_oracle, exhaustive=True,
                      rule="thread-free witnesses of D28/D29: divide_outputs over a prepared source with one output force-killed",
                      branch=lambda c, o: f"closed={int(c['closed'])}/killed={c['killed']}/n={len(c['dicts'])}/{o.split(' ')[1].split(':')[0]}")
+    ctx.correspond("mailbox/kill-bookkeeping", killbk_cases(), lambda c: _guard(killbk_impl, c), killbk_op, killbk_oracle, exhaustive=True,
+                   nontrivial=lambda c, o: True,
+                   rule="real Mailbox.kill / kill_from_exception on a mailbox in every (killed, force_killed, reason) state, every "
+                        "argument combination incl. the keyword defaults, conditions replaced by recorders — vs `c06.kill` (MB.kill for "
+                        "flags and wake-ups, AMB.kill for the reason, Net.killFromException); exhaustive",
+                   branch=lambda c, o: f"{c['call']}/killed={c['killed']}/{c.get('exc', 'up=' + str(c.get('up')))}")
     ctx.note(f"wiring + PostOffice correspondence took {time.time() - t0:.0f}s")
     # (iii) pipelines under the scheduler
     t1 = time.time()
@@ -1525,6 +1871,10 @@ def replay(ctx, body):
         out = _guard(wire_impl, case)
         print("implementation output:", out)
         return wire_oracle(case, out)
+    if comp.startswith("mailbox/kill-bookkeeping"):
+        out = _guard(killbk_impl, case)
+        print("implementation output:", out)
+        return killbk_oracle(case, out)
     if comp.startswith("postoffice"):
         out = po_impl(case)
         print("implementation output:", out)
